@@ -178,6 +178,11 @@ def flow_requests(case):
     for ln, col, name in F.reads(text):
         reqs.append({'kind': 'location', 'source': text, 'position': [ln, col + len(name)], 'file': 'zqflow.py',
                      'bare': True, 'name': name})
+    for ln, endcol, name, attr in F.attr_reads(text)[:8]:
+        reqs.append({'kind': 'location', 'source': text, 'position': [ln, endcol], 'file': 'zqflow.py',
+                     'bare': False, 'name': name + '.' + attr, 'multi': True})
+        reqs.append({'kind': 'assist', 'source': text, 'position': [ln, endcol - len(attr)], 'file': 'zqflow.py',
+                     'multi': True})
     reqs.append({'kind': 'lint', 'source': text, 'position': None, 'file': 'zqflow.py'})
     return reqs
 
@@ -203,6 +208,10 @@ def project_requests(case, rng):
                          'position': [2, 6 + len(mn) + len(mu)], 'file': 'zqmain.py', 'multi': True})
             reqs.append({'kind': 'assist', 'source': 'from %s import *\n%s.\n' % (mn, mu),
                          'position': [2, len(mu) + 1], 'file': 'zqmain.py', 'multi': True})
+            reqs.append({'kind': 'location', 'source': 'import %s\nzr = %s.%s.shared\n' % (mn, mn, mu),
+                         'position': [2, 13 + len(mn) + len(mu)], 'file': 'zqmain.py', 'multi': True})
+            reqs.append({'kind': 'location', 'source': 'from %s import %s\nzr = %s.common\n' % (mn, mu, mu),
+                         'position': [2, 12 + len(mu)], 'file': 'zqmain.py', 'multi': True})
         reqs.append({'kind': 'exports', 'module': m['name'], 'file': 'zqmain.py', 'source': '', 'position': None})
     for j in range(6):
         q = G.gen_request(rng, spec, uid='u%d' % j)
@@ -252,10 +261,10 @@ def check_case(case, idseeds, hashseeds, stats=None):
     if case['kind'] == 'flow' and not case.get('all_reads'):
         # first pass under one seed: keep the reads whose answer has alternatives (plus lint)
         probe = answers(case, reqs, idseeds[:1], repeat=False)[str(idseeds[0])]['first']
-        keep = [q for q, a in zip(reqs, probe) if q['kind'] != 'location' or has_alternatives(a)]
+        keep = [q for q, a in zip(reqs, probe) if q['kind'] != 'location' or has_alternatives(a) or q.get('multi')]
         if stats is not None:
             stats['evals'] += len(reqs)
-        reqs = keep[:12]
+        reqs = keep[:14]
     if not reqs:
         return vios
     local = answers(case, reqs, idseeds, repeat=True)
